@@ -15,8 +15,4 @@ INVARIANT C46_ConsumedOnceAtStop
 INVARIANT C46_RangesConserved
 INVARIANT C46_ArrayLengthAtStop
 INVARIANT C46_RowsCountConsumed
-INVARIANT C46_ReadBackRows
-INVARIANT C46_ReadBackArrays
-INVARIANT C46_ReadBackMetadata
-INVARIANT C46_ReadBackNodes
 POSTCONDITION TraceAccepted
